@@ -333,6 +333,13 @@ func (t *taintCtx) secretsIn(fn *ssa.Function, v ssa.Value, ctx []*ssa.Call, dep
 			add("result of "+what, cl.Pos())
 			return true
 		}
+		// the text form of a whole request or key object (x.String(), x.GoString()) reveals what printing x would
+		if n := callName(cl); (n == "String" || n == "GoString") && callRecv(cl) != nil && len(callArgs(cl)) == 0 {
+			if ok, why := secretType(callRecv(cl).Type(), 0); ok {
+				add("the text form ("+n+") of a whole value of type "+why, cl.Pos())
+				return true
+			}
+		}
 		if t.sanitiser(cl) {
 			return true
 		}
@@ -654,6 +661,13 @@ func (t *taintCtx) keyClass(fn *ssa.Function, v ssa.Value, depth int) string {
 // ---- the check --------------------------------------------------------------------------------
 
 func checkC04(c *Ctx) Meta {
+	// a key-decrypting key that stays derived after a passphrase check is later used to seal new secrets
+	// (a new keystore's crypto key sealed under a zeroed or stale master key is readable without the
+	// passphrase): the C03 lifetime rule as a premise
+	c.Rule("C04-DERIVED", "a key-decrypting key derived from the private passphrase does not survive an operation that leaves the wallet locked, and is never reused to seal another keystore's secrets (the C03 rule, here as the premise of 'what is stored is sealed under a key only the passphrase yields')", 4)
+	c.pushAlias("C03-DERIVED", "C04-DERIVED")
+	checkDerivedKeyLifetime(c)
+	c.popAlias()
 	c.Rule("C04-STORE", "no secret reaches the wallet store in the clear: the value of every Bucket.Put in the keystore package has no secret source (seed, private/extended key, key-encryption key, passphrase) in its backward slice once the slice is cut at Encrypt and at the public-key/hash declassifiers", 18)
 	c.Rule("C04-LOG", "no secret reaches the log: no argument of logging.CPrint/VPrint (message, LogFormat values) in the wallet, API, server and command packages is or derives from a secret, including whole request or key objects whose printing reveals a passphrase field", 150)
 	c.Rule("C04-EXPORT", "the keystore file and the API responses carry only ciphertext and parameters: every field stored into Keystore/cryptoJSON/hdPath by export, every file write of the API and every response field is free of secret sources", 12)
